@@ -27,8 +27,8 @@ type Reframe struct {
 	// ErrorFromEnd > 0: place the error frame this many payload bytes before the
 	// end of the server's stream (resolved with the un-reframed run's length):
 	// 12/8/4 = before the first/second/third statistics value of a pull.
-	ErrorFromEnd int64 `json:"error_from_end,omitempty"`
-	ErrorMsg string `json:"error_msg,omitempty"`
+	ErrorFromEnd int64  `json:"error_from_end,omitempty"`
+	ErrorMsg     string `json:"error_msg,omitempty"`
 }
 
 type C17Scenario struct {
@@ -101,9 +101,9 @@ type reframer struct {
 	daemon    bool
 	dataBytes int64
 	// reach probes
-	Frames, Infos, Empties, MidWord int
-	ErrorSent                         bool
-	MaxRun                            int
+	Frames, Infos, Empties, MidWord, Merged int
+	ErrorSent                               bool
+	MaxRun                                  int
 }
 
 func (m *reframer) writeFrame(w io.Writer, tag int, payload []byte) error {
@@ -274,6 +274,36 @@ func (m *reframer) run(toClient, toServer *kernel.End) error {
 			}
 			continue
 		}
+		// merge the data frames that have already arrived, so that the re-cut
+		// frames can also be LARGER than the server's own (causality is kept:
+		// only bytes the server has already emitted are used)
+		for m.re.MaxFrame > len(payload) && toServer.Available() >= 4 && len(payload) < 1<<20 {
+			var h2 [4]byte
+			if _, err := io.ReadFull(toServer, h2[:]); err != nil {
+				break
+			}
+			hh := binary.LittleEndian.Uint32(h2[:])
+			t2 := int(hh>>24) - refproto.MplexBase
+			p2 := make([]byte, int(hh&0xffffff))
+			if _, err := io.ReadFull(toServer, p2); err != nil {
+				break
+			}
+			if t2 != refproto.TagData {
+				if err := m.emit(toClient, payload); err != nil {
+					return nil
+				}
+				payload = nil
+				if err := m.writeFrame(toClient, t2, p2); err != nil {
+					return nil
+				}
+				continue
+			}
+			payload = append(payload, p2...)
+			m.Merged++
+		}
+		if len(payload) == 0 {
+			continue
+		}
 		if err := m.emit(toClient, payload); err != nil {
 			return nil
 		}
@@ -357,6 +387,7 @@ func (c17) Run(t *testing.T, scenario any, job *Job, res *Result) {
 	res.Probe("info_frames", m.Infos)
 	res.Probe("empty_frames", m.Empties)
 	res.Probe("frames_ending_mid_word", m.MidWord)
+	res.Probe("server_frames_merged", m.Merged)
 	if m.MaxRun > 100 {
 		res.Probe("info_runs_over_100", 1)
 	}
